@@ -1,6 +1,7 @@
 // C16: parse_pdf_obj under a depth bound; reports the context's depth after the call, from a fresh context, from a
 // context whose depth is already k0 (`at`), and over several parses on one context (`seq`).  `ind` cases / steps wrap
 // the input as the body of an indirect object and run parse_pdf_indirect_obj on the same context instead.
+// `ctx` / `cseq`: SEVERAL contexts alive on the case's thread (or one on another thread), see run_ctx / run_cseq.
 // Every case runs on a thread with a FIXED 1 MiB stack (what a worker thread of a user of the crate would
 // have), so that the verdict on wide / long inputs does not depend on the 8 MiB of the main thread: stack use
 // that grows with the WIDTH or LENGTH of the input (instead of the nesting bound d) overflows it and kills
@@ -315,18 +316,21 @@ fn step(ctxt: &mut PDFObjContext, w: &[&str]) -> String {
 }
 
 // a context with bound d whose current depth is k0: what a client that embeds the object parser inside its own nesting
-// gets by k0 calls of the public enter_obj()
-fn context_at(d: usize, k0: usize) -> Option<PDFObjContext> {
+// gets by k0 calls of the public enter_obj().  Also returned: the depth the context reports right after `new` (before any
+// enter_obj).  Err: (that depth when a context was made, the line to print) - `bad-case` for k0 > d, `enter-refused` when
+// an enter_obj() below the bound returned false
+fn context_at(d: usize, k0: usize) -> Result<(PDFObjContext, usize), (Option<usize>, String)> {
     if k0 > d {
-        return None
+        return Err((None, "bad-case".to_string()))
     }
     let mut ctxt = PDFObjContext::new(d);
+    let b0 = ctxt.depth();
     for _ in 0 .. k0 {
         if !ctxt.enter_obj() {
-            return None
+            return Err((Some(b0), "enter-refused".to_string()))
         }
     }
-    Some(ctxt)
+    Ok((ctxt, b0))
 }
 // the client's matching leave_obj() calls; never more than the context's depth allows (the harness must not trip
 // leave_obj's assert itself when the code under test has lost a level)
@@ -339,22 +343,29 @@ fn unwind(ctxt: &mut PDFObjContext, k0: usize) {
     }
 }
 
+fn show_depth(d: Option<usize>) -> String {
+    match d {
+        Some(n) => n.to_string(),
+        None => "-".to_string(),
+    }
+}
+
 // `<case>`                                   one parse on a fresh context
 // `at <k0> <case>`                           one parse on a context whose depth is already k0
 // `seq <d> <k0> ; <step> ; <step> ...`       several parses on ONE context (a step is a case without its bound word)
-fn run_case(line: &str) -> String {
-    let w: Vec<&str> = line.split_whitespace().collect();
+// returns (the depth the case's context reported right after `new`, the case's line)
+fn run_single(w: &[&str]) -> (Option<usize>, String) {
     if w.len() < 3 {
-        return "bad-case".to_string()
+        return (None, "bad-case".to_string())
     }
     if w[0] == "seq" {
         let (d, k0): (usize, usize) = match (w[1].parse(), w[2].parse()) {
             (Ok(d), Ok(k)) => (d, k),
-            _ => return "bad-case".to_string(),
+            _ => return (None, "bad-case".to_string()),
         };
-        let mut ctxt = match context_at(d, k0) {
-            Some(c) => c,
-            None => return "bad-case".to_string(),
+        let (mut ctxt, b0) = match context_at(d, k0) {
+            Ok(c) => c,
+            Err(e) => return e,
         };
         let mut outs: Vec<String> = Vec::new();
         for st in w[3 ..].split(|x| *x == ";") {
@@ -366,30 +377,178 @@ fn run_case(line: &str) -> String {
             outs.push(step(&mut ctxt, &sw));
         }
         unwind(&mut ctxt, k0);
-        return outs.join(" ; ")
+        return (Some(b0), outs.join(" ; "))
     }
     let (k0, cw): (usize, &[&str]) = if w[0] == "at" {
         match w[1].parse() {
             Ok(k) => (k, &w[2 ..]),
-            Err(_) => return "bad-case".to_string(),
+            Err(_) => return (None, "bad-case".to_string()),
         }
     } else {
         (0, &w[..])
     };
     if cw.len() < 3 {
-        return "bad-case".to_string()
+        return (None, "bad-case".to_string())
     }
     let d: usize = match cw[1].parse() {
         Ok(d) => d,
-        Err(_) => return "bad-case".to_string(),
+        Err(_) => return (None, "bad-case".to_string()),
     };
-    let mut ctxt = match context_at(d, k0) {
-        Some(c) => c,
-        None => return "bad-case".to_string(),
+    let (mut ctxt, b0) = match context_at(d, k0) {
+        Ok(c) => c,
+        Err(e) => return e,
     };
     let out = step(&mut ctxt, cw);
     unwind(&mut ctxt, k0);
-    out
+    (Some(b0), out)
+}
+
+// SEVERAL CONTEXTS (after missed seed C16_9: the depth in a thread-local shared by all contexts of a thread).
+// `ctx <dA> <jA> keep|drop|leave|thread <case>`: on the case's thread make context A = new(dA) and call its enter_obj() jA
+// times (all must succeed); then keep A alive as it is / drop it without leaving / leave jA times and keep it; `thread`: A is
+// made, entered and kept alive on ANOTHER thread instead.  Then the inner case (any of the kinds of run_single) runs on its
+// own new context B.  Output: `ctx <B.depth() right after new> <A.depth() after B's case | -> <the inner case's line>`
+fn run_ctx(w: &[&str]) -> String {
+    if w.len() < 7 || w[4] == "ctx" || w[4] == "cseq" {
+        return "bad-case".to_string()
+    }
+    let (da, ja): (usize, usize) = match (w[1].parse(), w[2].parse()) {
+        (Ok(d), Ok(j)) => (d, j),
+        _ => return "bad-case".to_string(),
+    };
+    let inner = &w[4 ..];
+    if w[3] == "thread" {
+        use std::sync::mpsc::channel;
+        let (tx_ready, rx_ready) = channel::<bool>();
+        let (tx_done, rx_done) = channel::<()>();
+        let h = std::thread::spawn(move || {
+            let mut a = PDFObjContext::new(da);
+            for _ in 0 .. ja {
+                if !a.enter_obj() {
+                    let _ = tx_ready.send(false);
+                    return 0
+                }
+            }
+            let _ = tx_ready.send(true);
+            let _ = rx_done.recv();
+            a.depth()
+        });
+        if !rx_ready.recv().unwrap_or(false) {
+            let _ = h.join();
+            return "enter-refused A".to_string()
+        }
+        let (b0, out) = run_single(inner);
+        let _ = tx_done.send(());
+        let a_after = h.join().ok();
+        return format!("ctx {} {} {}", show_depth(b0), show_depth(a_after), out)
+    }
+    let mut a = PDFObjContext::new(da);
+    for _ in 0 .. ja {
+        if !a.enter_obj() {
+            return "enter-refused A".to_string()
+        }
+    }
+    let mut a = Some(a);
+    match w[3] {
+        "keep" => {},
+        "drop" => a = None,
+        "leave" => unwind(a.as_mut().unwrap(), ja),
+        _ => return "bad-case".to_string(),
+    }
+    let (b0, out) = run_single(inner);
+    let a_after = a.as_ref().map(|c| c.depth());
+    format!("ctx {} {} {}", show_depth(b0), show_depth(a_after), out)
+}
+
+// `cseq <n> <d_0> <k_0> ... <d_n-1> <k_n-1> ; <i> <step> ; <i> <step> ...`: n contexts on ONE thread, made in order (context
+// i: bound d_i, then k_i enter_obj() calls), then the steps, each on the context of its index: a parse step of `seq` (the
+// bound word is d_i), or the client's own `enter` / `leave` (public enter_obj / leave_obj; leave is skipped at depth 0), or
+// `drop` (the context is dropped as it is).  Output: `new <depth right after new, per context>` ; per step `<depth of ITS
+// context before the step> <line | entered | refused | left | left-at-zero | dropped>` ; `end <final depth per context | ->`
+fn run_cseq(w: &[&str]) -> String {
+    let n: usize = match w.get(1).and_then(|x| x.parse().ok()) {
+        Some(n) if n >= 1 && n <= 8 => n,
+        _ => return "bad-case".to_string(),
+    };
+    if w.len() < 2 + 2 * n + 1 || w[2 + 2 * n] != ";" {
+        return "bad-case".to_string()
+    }
+    let mut dk: Vec<(usize, usize)> = Vec::new();
+    for i in 0 .. n {
+        match (w[2 + 2 * i].parse(), w[3 + 2 * i].parse()) {
+            (Ok(d), Ok(k)) if k <= d => dk.push((d, k)),
+            _ => return "bad-case".to_string(),
+        }
+    }
+    let mut ctxs: Vec<Option<PDFObjContext>> = Vec::new();
+    let mut news: Vec<String> = Vec::new();
+    for (i, (d, k)) in dk.iter().enumerate() {
+        match context_at(*d, *k) {
+            Ok((c, b0)) => {
+                news.push(b0.to_string());
+                ctxs.push(Some(c));
+            },
+            Err((b0, msg)) => {
+                news.push(show_depth(b0));
+                return format!("new {} ; {} {}", news.join(" "), msg, i)
+            },
+        }
+    }
+    let mut outs: Vec<String> = vec![format!("new {}", news.join(" "))];
+    for st in w[3 + 2 * n ..].split(|x| *x == ";") {
+        if st.is_empty() {
+            continue
+        }
+        let i: usize = match st[0].parse() {
+            Ok(i) if i < n && st.len() >= 2 => i,
+            _ => {
+                outs.push("bad-step".to_string());
+                continue
+            },
+        };
+        let c = match ctxs[i].as_mut() {
+            Some(c) => c,
+            None => {
+                outs.push("bad-step".to_string());
+                continue
+            },
+        };
+        let before = c.depth();
+        let line = match st[1] {
+            "enter" => (if c.enter_obj() { "entered" } else { "refused" }).to_string(),
+            "leave" => {
+                if before == 0 {
+                    "left-at-zero".to_string()
+                } else {
+                    c.leave_obj();
+                    "left".to_string()
+                }
+            },
+            "drop" => {
+                ctxs[i] = None;
+                "dropped".to_string()
+            },
+            _ => {
+                let ds = dk[i].0.to_string();
+                let mut sw: Vec<&str> = vec![st[1], &ds];
+                sw.extend_from_slice(&st[2 ..]);
+                step(c, &sw)
+            },
+        };
+        outs.push(format!("{} {}", before, line));
+    }
+    let ends: Vec<String> = ctxs.iter().map(|c| show_depth(c.as_ref().map(|c| c.depth()))).collect();
+    outs.push(format!("end {}", ends.join(" ")));
+    outs.join(" ; ")
+}
+
+fn run_case(line: &str) -> String {
+    let w: Vec<&str> = line.split_whitespace().collect();
+    match w.first() {
+        Some(&"ctx") => run_ctx(&w),
+        Some(&"cseq") => run_cseq(&w),
+        _ => run_single(&w).1,
+    }
 }
 
 fn run(line: &str) -> String {
